@@ -257,6 +257,182 @@ func IfOf(b *ssa.BasicBlock) *ssa.If {
 	return i
 }
 
+// ---------------------------------------------------------------- short-circuit conditions evaluated as values
+
+// CondPart is one operand of a short-circuit condition that go/ssa materialised as a value (the phi that
+// logicalBinop builds for `a || b` / `a && b` outside an if-condition, e.g. in `switch { case a || b: }`, in
+// `ok := a && b; if ok`, in a return of a predicate): when the If's successor Edge is taken, V evaluated to Truth.
+type CondPart struct {
+	V     ssa.Value
+	Truth bool
+}
+
+// LogicalParts decomposes the condition of ifi when it is a pure `||` chain (then the FALSE edge establishes
+// that every operand was false) or a pure `&&` chain (the TRUE edge establishes every operand). Mixed chains are
+// decomposed only as far as the outer operator is pure: an operand reached through control flow of the other
+// operator is not reported. Also follows one level of `x := <cond>; if x` / `if !x` (the phi negated).
+func LogicalParts(ifi *ssa.If) (edge int, parts []CondPart, ok bool) {
+	cond := ifi.Cond
+	neg := false
+	for {
+		if u, isU := cond.(*ssa.UnOp); isU && u.Op == token.NOT {
+			neg, cond = !neg, u.X
+			continue
+		}
+		break
+	}
+	phi, isPhi := cond.(*ssa.Phi)
+	if !isPhi || (phi.Comment != "||" && phi.Comment != "&&") {
+		return 0, nil, false
+	}
+	parts = logicalLeaves(phi, 0)
+	if len(parts) == 0 {
+		return 0, nil, false
+	}
+	// || : operands known (all false) when the phi is false; && : operands known (all true) when the phi is true
+	edge = 1
+	if phi.Comment == "&&" {
+		edge = 0
+	}
+	if neg {
+		edge = 1 - edge
+	}
+	return edge, parts, true
+}
+
+func logicalLeaves(phi *ssa.Phi, depth int) []CondPart {
+	if depth > 4 {
+		return nil
+	}
+	done := phi.Block()
+	isOr := phi.Comment == "||"
+	n := len(phi.Edges)
+	if n < 2 || len(done.Preds) != n {
+		return nil
+	}
+	short := map[*ssa.BasicBlock]bool{}
+	for i := 0; i < n-1; i++ {
+		c, isC := phi.Edges[i].(*ssa.Const)
+		if !isC || c.Value == nil || (c.Value.String() == "true") != isOr {
+			return nil
+		}
+		short[done.Preds[i]] = true
+	}
+	// every short-circuit block ends in an If with exactly one successor == done, the other one either another
+	// short-circuit block or the start of the right operand R; R is entered only from short-circuit blocks
+	var rhs *ssa.BasicBlock
+	var parts []CondPart
+	for i := 0; i < n-1; i++ {
+		p := done.Preds[i]
+		pi := IfOf(p)
+		if pi == nil {
+			return nil
+		}
+		k := -1
+		switch {
+		case p.Succs[0] == done && p.Succs[1] != done:
+			k = 0
+		case p.Succs[1] == done && p.Succs[0] != done:
+			k = 1
+		default:
+			return nil
+		}
+		other := p.Succs[1-k]
+		if !short[other] {
+			if rhs != nil && rhs != other {
+				return nil
+			}
+			rhs = other
+		}
+		parts = append(parts, CondPart{V: pi.Cond, Truth: k == 1})
+	}
+	if rhs == nil {
+		return nil
+	}
+	for _, pr := range rhs.Preds {
+		if !short[pr] {
+			return nil // mixed chain: the right operand is also reached from an operand of the other operator
+		}
+	}
+	for b := range short {
+		for _, pr := range b.Preds {
+			if !short[pr] && b != firstShort(short, done) {
+				return nil
+			}
+		}
+	}
+	last := phi.Edges[n-1]
+	if lp, isPhi := last.(*ssa.Phi); isPhi && lp.Comment == phi.Comment {
+		if sub := logicalLeaves(lp, depth+1); sub != nil {
+			return append(parts, sub...)
+		}
+	}
+	return append(parts, CondPart{V: last, Truth: !isOr})
+}
+
+// firstShort: the short-circuit block that is entered from outside the chain (the one evaluating the first operand).
+func firstShort(short map[*ssa.BasicBlock]bool, done *ssa.BasicBlock) *ssa.BasicBlock {
+	var first *ssa.BasicBlock
+	for b := range short {
+		outside := false
+		for _, pr := range b.Preds {
+			if !short[pr] {
+				outside = true
+			}
+		}
+		if outside {
+			if first != nil {
+				return nil
+			}
+			first = b
+		}
+	}
+	return first
+}
+
+// EdgeFact: Fact (what the TRUE value of its condition establishes) together with the edges of the If on which
+// something is known: OnTrue - the fact holds on successor 0; OnFalse - its negation holds on successor 1.
+// For a plain condition both are set. For an operand of a materialised `||` chain the If's FALSE edge establishes
+// the operand false: reported with the operand's fact re-oriented to this If.
+type EdgeFact struct {
+	Fact    Fact
+	Cond    ssa.Value
+	OnTrue  bool
+	OnFalse bool
+}
+
+// CondFactsOf lists what the two edges of ifi establish: the fact of the condition itself and, for short-circuit
+// conditions evaluated as values, the facts of the operands (see LogicalParts).
+func CondFactsOf(ifi *ssa.If) []EdgeFact {
+	out := []EdgeFact{{Fact: CondFact(ifi.Cond), Cond: ifi.Cond, OnTrue: true, OnFalse: true}}
+	edge, parts, ok := LogicalParts(ifi)
+	if !ok {
+		return out
+	}
+	for _, p := range parts {
+		f := CondFact(p.V)
+		// orient the operand's fact to this If: it must read "TRUE edge of ifi establishes f"
+		//   operand true on edge 0  -> f as is, OnTrue
+		//   operand false on edge 0 -> negated f, OnTrue
+		//   operand false on edge 1 -> f as is, OnFalse (the FALSE edge establishes the negation)
+		//   operand true on edge 1  -> negated f, OnFalse
+		ef := EdgeFact{Fact: f, Cond: p.V}
+		if edge == 0 {
+			ef.OnTrue = true
+			if !p.Truth {
+				ef.Fact.Negated = !ef.Fact.Negated
+			}
+		} else {
+			ef.OnFalse = true
+			if p.Truth {
+				ef.Fact.Negated = !ef.Fact.Negated
+			}
+		}
+		out = append(out, ef)
+	}
+	return out
+}
+
 // ---------------------------------------------------------------- success edges
 
 // Conv is the success convention of a guard result.
@@ -304,30 +480,32 @@ func SuccessEdges(fn *ssa.Function, sites []GuardSite) map[*ssa.BasicBlock]map[i
 		if ifi == nil {
 			continue
 		}
-		f := CondFact(ifi.Cond)
-		g := match(f.Subject)
-		if g == nil {
-			continue
-		}
-		// trueEdgeMeans: does the TRUE edge mean "passed"?
-		var pass, decided bool
-		switch {
-		case g.Conv == ConvErrNil && f.Kind == FNil:
-			pass, decided = !f.Negated, true
-		case g.Conv == ConvRespOk && f.Kind == FOk:
-			pass, decided = !f.Negated, true
-		case g.Conv == ConvBoolTrue && f.Kind == FBool && f.Field == "":
-			pass, decided = !f.Negated, true
-		case g.Conv == ConvRespTrue && f.Kind == FEqConst && f.Field == "Result" && f.Const == "true":
-			pass, decided = !f.Negated, true
-		}
-		if !decided {
-			continue
-		}
-		if pass {
-			mark(b, 0)
-		} else {
-			mark(b, 1)
+		for _, ef := range CondFactsOf(ifi) {
+			f := ef.Fact
+			g := match(f.Subject)
+			if g == nil {
+				continue
+			}
+			// trueEdgeMeans: does the TRUE edge mean "passed"?
+			var pass, decided bool
+			switch {
+			case g.Conv == ConvErrNil && f.Kind == FNil:
+				pass, decided = !f.Negated, true
+			case g.Conv == ConvRespOk && f.Kind == FOk:
+				pass, decided = !f.Negated, true
+			case g.Conv == ConvBoolTrue && f.Kind == FBool && f.Field == "":
+				pass, decided = !f.Negated, true
+			case g.Conv == ConvRespTrue && f.Kind == FEqConst && f.Field == "Result" && f.Const == "true":
+				pass, decided = !f.Negated, true
+			}
+			if !decided {
+				continue
+			}
+			if pass && ef.OnTrue {
+				mark(b, 0)
+			} else if !pass && ef.OnFalse {
+				mark(b, 1)
+			}
 		}
 	}
 	return out
